@@ -316,3 +316,67 @@ Qed.
 
 Lemma existsb_map_c : forall {A B} (f : B -> bool) (g : A -> B) l, existsb f (map g l) = existsb (fun x => f (g x)) l.
 Proof. intros A B f g l. induction l as [|a l IH]; cbn; [reflexivity|]. now rewrite IH. Qed.
+
+(* ---------- 5. normalisation of a name at string level ---------- *)
+(* strings.ToLower(strings.TrimSuffix(s, ".")) on a Coq string; C07_Spec.norm_name is the same function
+   (Link_C07_C11.norm_name_s) *)
+Definition s_lower_ascii (c : ascii) : ascii :=
+  let n := N_of_ascii c in if (65 <=? n) && (n <=? 90) then ascii_of_N (n + 32) else c.
+Fixpoint s_lower (s : string) : string :=
+  match s with EmptyString => EmptyString | String c r => String (s_lower_ascii c) (s_lower r) end.
+Fixpoint s_strip_dot (s : string) : string :=
+  match s with
+  | EmptyString => EmptyString
+  | String c r => match r with
+                  | EmptyString => if Ascii.eqb c "."%char then EmptyString else s
+                  | _ => String c (s_strip_dot r)
+                  end
+  end.
+Definition s_norm (s : string) : string := s_lower (s_strip_dot s).
+
+Lemma bytes_lower_ascii : forall c, N_of_ascii (s_lower_ascii c) = lower_byte (N_of_ascii c).
+Proof.
+  intros c. unfold s_lower_ascii, lower_byte, is_upper, in_range. cbv zeta.
+  destruct ((65 <=? N_of_ascii c) && (N_of_ascii c <=? 90)) eqn:E; [|reflexivity].
+  apply N_ascii_embedding. lia.
+Qed.
+
+Lemma bytes_s_lower : forall s, bytes (s_lower s) = map lower_byte (bytes s).
+Proof. induction s as [|c s IH]; cbn; [reflexivity|]. now rewrite bytes_lower_ascii, IH. Qed.
+
+Lemma strip_dot_cons : forall x l, l <> [] -> C11_Spec.strip_dot (x :: l) = x :: C11_Spec.strip_dot l.
+Proof.
+  intros x l Hne. unfold C11_Spec.strip_dot. cbn [rev].
+  destruct (rev l) as [|c r] eqn:E.
+  - exfalso. apply Hne. rewrite <- (rev_involutive l), E. reflexivity.
+  - cbn [app]. destruct (c =? ch_dot); [|reflexivity]. rewrite rev_app_distr. reflexivity.
+Qed.
+
+Lemma bytes_strip_dot : forall s, bytes (s_strip_dot s) = C11_Spec.strip_dot (bytes s).
+Proof.
+  induction s as [|c s IH]; [reflexivity|]. destruct s as [|c' s'].
+  - cbn [s_strip_dot bytes]. unfold C11_Spec.strip_dot. cbn [rev app].
+    rewrite ascii_eqb_bytes. change (N_of_ascii ".") with ch_dot.
+    destruct (N_of_ascii c =? ch_dot); reflexivity.
+  - change (s_strip_dot (String c (String c' s'))) with (String c (s_strip_dot (String c' s'))).
+    cbn [bytes] in *. rewrite IH. symmetry. apply strip_dot_cons. discriminate.
+Qed.
+
+(* the string-level normalisation IS C11's *)
+Lemma bytes_s_norm : forall s, bytes (s_norm s) = normalize (bytes s).
+Proof. intros s. unfold s_norm, normalize. now rewrite bytes_s_lower, bytes_strip_dot. Qed.
+
+Lemma strip_dot_empty : forall s, s_strip_dot s = ""%string -> s = ""%string \/ s = "."%string.
+Proof.
+  intros [|c [|c' s']]; [now left | |].
+  - cbn. destruct (Ascii.eqb_spec c "."%char) as [->|]; [now right | discriminate].
+  - change (s_strip_dot (String c (String c' s'))) with (String c (s_strip_dot (String c' s'))). discriminate.
+Qed.
+
+(* the only names that normalise to the empty name: "" and the root "." *)
+Lemma s_norm_empty : forall s, s_norm s = ""%string -> s = ""%string \/ s = "."%string.
+Proof.
+  intros s H. unfold s_norm in H. apply strip_dot_empty.
+  destruct (s_strip_dot s); [reflexivity | discriminate].
+Qed.
+
